@@ -278,13 +278,7 @@ def _parse_readelf(text):
     return v
 
 
-def readelf(paths):
-    """One process for all files: readelf flushes stdout before it writes a diagnostic, so with stderr merged into stdout every
-    `readelf: Warning/Error` line lands inside the chunk of the file it is about (chunks start with `File: <path>`; readelf prints that
-    header only when given more than one file, so a single path is passed twice)."""
-    paths = list(paths)
-    if not paths:
-        return {}
+def _readelf_once(paths):
     ps = paths if len(paths) > 1 else paths * 2
     r = subprocess.run(["readelf", "-hSsrlW"] + ps, stdout=subprocess.PIPE, stderr=subprocess.STDOUT, text=True, errors="replace")
     chunks = {}
@@ -311,6 +305,33 @@ def readelf(paths):
             v["ok"] = False
             v["diag"] = "\n".join(diags)
         res[p] = v
+    return res
+
+
+def readelf(paths):
+    """One process for many files: readelf flushes stdout before it writes a diagnostic, so with stderr merged into stdout every
+    `readelf: Warning/Error` line lands inside the chunk of the file it is about (chunks start with `File: <path>`; readelf prints that
+    header only when given more than one file, so a single path is passed twice).  GNU readelf 2.40 stops dumping symbols and relocations
+    of the files that FOLLOW a corrupt one (its dump flags are not restored), so a file without diagnostics that came after a rejected
+    file is read again in a further run; a file with diagnostics is rejected whatever came before it."""
+    pending = list(paths)
+    res = {}
+    for _ in range(len(pending) + 1):
+        if not pending:
+            break
+        got = _readelf_once(pending)
+        bad = [i for i, p in enumerate(pending) if not got[p]["ok"]]
+        if not bad:
+            res.update(got)
+            pending = []
+            break
+        again = []
+        for i, p in enumerate(pending):
+            if not got[p]["ok"] or i < bad[0]:
+                res[p] = got[p]
+            else:
+                again.append(p)
+        pending = again
     return res
 
 
